@@ -59,6 +59,14 @@ scen("C17", "ignore", "backslash-name-is-not-a-goit-path", INIT + [w("a", "1"), 
      "a file named '.goit\\HEAD' was staged as .goit/HEAD; restore then overwrote Goit's HEAD file")
 scen("C04", "stage", "backslash-name-staged-verbatim", INIT + [w("a\\b", "1"), w("d/x\\", "2"), g("add", "a\\b", "d"), g("status"), g("rm", "a\\b")],
      "a\\b was staged as a/b")
+scen("C14", "log", "crlf-message-shown-as-recorded", INIT + [w("a", "1"), g("add", "a"), g("commit", "-m", "subject\r\n\r\nbody line\r\n"), g("log"), w("a", "2"), g("add", "a"), g("commit", "-m", "trailing cr\r"), g("log")],
+     "log dropped the CR before a line break from the message")
+scen("C14", "log", "message-line-over-64k", INIT + [w("a", "1"), g("add", "a"), g("commit", "-m", "y" * 70000), g("log"), w("a", "2"), g("add", "a"), g("commit", "-m", "s\n" + "x" * 66000 + "\ntail"), g("log")],
+     "log showed an empty message for a commit whose message line is longer than 64 KiB")
+scen("C11", "journal", "message-line-over-64k", INIT + [w("a", "1"), g("add", "a"), g("commit", "-m", "one"), w("a", "2"), g("add", "a"), g("commit", "-m", "y" * 70000), g("reflog"), g("reset", "--soft", "HEAD@{1}"), g("reflog")],
+     "reflog and reset HEAD@{n} failed with 'token too long' after a commit with a first message line over 64 KiB")
+scen("C20", "config", "value-over-64k", [g("init"), g("config", "user.name", "L" + "n" * 70000 + " end"), g("config", "user.email", "a@example.com"), g("config", "core.x", "1")],
+     "a value over 64 KiB silently ended the reading of the configuration; the next config call dropped it")
 print("pins written")
 
 # ---- C15 / C16 pins: points are selected by operation class of the fault-free run (at_op)
